@@ -170,9 +170,16 @@ def deep_copy(v, memo=None):
         return tuple(deep_copy(x, memo) for x in v)
     if isinstance(v, set):
         return set(v)
-    if isinstance(v, orders.PyStub) and hasattr(v, 'copy'):
+    if isinstance(v, orders.PyStub) and callable(getattr(type(v), 'copy', None)):
         c = v.copy()
         memo[id(v)] = c
+        return c
+    if isinstance(v, orders.PyStub) and not isinstance(v, ClassRef) and hasattr(v, '__dict__'):
+        import copy as _copy
+        c = _copy.copy(v)
+        memo[id(v)] = c
+        for k, x in list(vars(v).items()):
+            setattr(c, k, deep_copy(x, memo))
         return c
     return v
 
